@@ -498,6 +498,73 @@ def wrap_step_correspondence(rep, drv, rng, n):
     return len(jobs)
 
 
+def member_close_raises(rep):
+    """close() raising midway: a member filesystem of a composite fails to close.  After that
+    first close() no call may read or change stored data any more."""
+    from fs.memoryfs import MemoryFS
+    from fs.mountfs import MountFS
+    from fs.multifs import MultiFS
+
+    class FailingClose(MemoryFS):
+        def close(self):
+            if not getattr(self, "_failed_once", False):
+                self._failed_once = True
+                raise OSError("disk full while finalising")
+            return super(FailingClose, self).close()
+
+    calls = [("exists", ("a",)), ("isdir", ("d",)), ("listdir", ("/",)), ("getinfo", ("a",)), ("readbytes", ("a",)),
+             ("writebytes", ("new", b"x")), ("makedir", ("newdir",)), ("remove", ("a",)), ("writetext", ("t", u"x")),
+             ("appendbytes", ("a", b"y")), ("scandir", ("/",)), ("opendir", ("d",))]
+    for comp in ("multi-bad-first", "multi-bad-last", "mount-bad-first", "mount-bad-last"):
+        for how in ("close", "with"):
+            bad, good = FailingClose(), MemoryFS()
+            for m in (bad, good):
+                m.writebytes("a", b"data")
+                m.makedir("d")
+            if comp.startswith("multi"):
+                c = MultiFS(auto_close=True)
+                order = [("bad", bad), ("good", good)] if comp.endswith("first") else [("good", good), ("bad", bad)]
+                for i, (n, m) in enumerate(order):
+                    c.add_fs(n, m, write=(n == "good"), priority=10 - i)
+            else:
+                c = MountFS(auto_close=True)
+                order = [("p", bad), ("q", good)] if comp.endswith("first") else [("q", good), ("p", bad)]
+                for n, m in order:
+                    c.mount(n, m)
+            pre = H.snapshot(good) if not good.isclosed() else None
+
+            def do_close():
+                if how == "with":
+                    with c:
+                        pass
+                else:
+                    c.close()
+            first = R.outcome(do_close)
+            rep.evaluations += 1
+            rep.nontrivial("member-close-raises", comp, how)
+            rep.count("member-close-raises/%s" % ("raised" if first[0] == "err" else "returned"))
+            leaks = []
+            for name, args in calls:
+                p = args[0] if comp.startswith("multi") else ("q/" + args[0].lstrip("/") if args[0] != "/" else "q")
+                a = (p,) + tuple(args[1:])
+                o = R.outcome(lambda: (list(getattr(c, name)(*a)) if name == "scandir" else getattr(c, name)(*a)))
+                rep.evaluations += 1
+                if not (o[0] == "err" and o[1] == "FilesystemClosed"):
+                    leaks.append("%s%r -> %s" % (name, a, o[:2]))
+            changed = (not good.isclosed()) and pre is not None and H.snapshot(good) != pre
+            if leaks or changed:
+                rep.violation({"composite": comp, "how": how, "first_close": list(first[:2]), "leaks": leaks, "member_changed": changed},
+                              "%s(auto_close=True) whose member's close() raised (%s via %s): afterwards %s%s" % (
+                                  "MultiFS" if comp.startswith("multi") else "MountFS", first[:2], how,
+                                  "; ".join(leaks[:4]) or "no call answered", " — and a member's data changed" if changed else ""),
+                              found_input=True, signature="C18/%s/member-close-raises" % ("MultiFS" if comp.startswith("multi") else "MountFS"))
+            for m in (bad, good, c):
+                try:
+                    m.close()
+                except Exception:
+                    pass
+
+
 def run(rep, tier, seed, deep=False):
     drv = vlib.Driver()
     rng = vlib.rng_for(seed, "c18")
@@ -529,6 +596,7 @@ def run(rep, tier, seed, deep=False):
             for mode in MODES + (["fail-once"] if kind in ARCH_W else []):
                 for _ in range(reps):
                     runner.one(kind, mode)
+        member_close_raises(rep)
         n = wrap_step_correspondence(rep, drv, rng, 40 if quick else 1500)
         rep.extra["wrap_step_cases"] = n
         rep.extra["table_rows"] = len(table.rows)
